@@ -149,7 +149,17 @@ func (defaultLocker *DefaultLocker) Lock(ctx context.Context, accounts Accounts)
 
 	select {
 	case <-ctx.Done():
-		defaultLocker.intents.RemoveValue(intent)
+		// The intent may have been granted at the very moment the context was
+		// cancelled: decide under the mutex, and give back what was granted.
+		defaultLocker.mu.Lock()
+		select {
+		case <-intent.acquired:
+			intent.unlock(ctx, defaultLocker)
+			recheck()
+		default:
+			defaultLocker.intents.RemoveValue(intent)
+		}
+		defaultLocker.mu.Unlock()
 		return nil, errors.Wrapf(ctx.Err(), "locking accounts: %s as read, and %s as write", accounts.Read, accounts.Write)
 	case <-intent.acquired:
 		return releaseIntent, nil
